@@ -38,58 +38,58 @@ def candsS (k word op : String) (a b : Int) (r : Int) : List (List Act) :=
   let v := r.toNat
   match word, op with
   | "closing", "cas" =>
-      if b == 2 then [[.hCas ok]]
-      else if k == "detacher" then [[.dCas ok]]
-      else if k == "task" then [[.cU1 ok], [.closeNew ok]]
-      else [[.closeNew ok]]
-  | "closing", "store" => if a == 1 then [[.cU5]] else []
+      if b == 2 then [[.h (.hCas ok)]]
+      else if k == "detacher" then [[.c (.dCas ok)]]
+      else if k == "task" then [[.c (.cU1 ok)], [.c (.closeNew ok)]]
+      else [[.c (.closeNew ok)]]
+  | "closing", "store" => if a == 1 then [[.c (.cU5)]] else []
   | "closing", "load" =>
-      if k == "acc" then [[.aAct1 v], [.aAct2 v], [.obsLoad v]]
-      else if k == "init" then [[.cAct v], [.obsLoad v]]
-      else if k == "task" then [[.tC3 v], [.t4a v], [.t7a v], [.tP1 v], [.tP2b v], [.obsLoad v]]
-      else [[.obsLoad v]]
+      if k == "acc" then [[.a (.aAct1 v)], [.a (.aAct2 v)], [.u (.obsLoad v)]]
+      else if k == "init" then [[.a (.cAct v)], [.u (.obsLoad v)]]
+      else if k == "task" then [[.t (.tC3 v)], [.t (.t4a v)], [.t (.t7a v)], [.t (.tP1 v)], [.t (.tP2b v)], [.u (.obsLoad v)]]
+      else [[.u (.obsLoad v)]]
   | "processing", "cas" =>
-      if k == "hup" then [[.hProc ok], [.hLock ok]]
-      else if k == "poller" then [[.pLock ok]]
-      else if k == "acc" then [[.aProc ok], [.cU4 ok], [.cU6 ok]]
-      else if k == "init" || k == "setreq" then [[.sLock ok], [.cU4 ok], [.cU6 ok]]
-      else if k == "task" then [[.t7b ok], [.t8b ok], [.cU4 ok], [.cU6 ok]]
-      else [[.cU4 ok], [.cU6 ok]]
-  | "processing", "store" => if a == 0 then [[.t6], [.tP2a]] else []
+      if k == "hup" then [[.h (.hProc ok)], [.h (.hLock ok)]]
+      else if k == "poller" then [[.p (.pLock ok)]]
+      else if k == "acc" then [[.a (.aProc ok)], [.c (.cU4 ok)], [.c (.cU6 ok)]]
+      else if k == "init" || k == "setreq" then [[.u (.sLock ok)], [.c (.cU4 ok)], [.c (.cU6 ok)]]
+      else if k == "task" then [[.t (.t7b ok)], [.t (.t8b ok)], [.c (.cU4 ok)], [.c (.cU6 ok)]]
+      else [[.c (.cU4 ok)], [.c (.cU6 ok)]]
+  | "processing", "store" => if a == 0 then [[.t (.t6)], [.t (.tP2a)]] else []
   | "connecting", "cas" =>
-      if k == "acc" then [[.aConn ok]] else if k == "hup" then [[.hConn ok]] else [[.tD2 ok]]
-  | "connecting", "store" => if a != 0 then [] else if k == "hup" then [[.hUnl]] else [[.tC2], [.tD4]]
+      if k == "acc" then [[.a (.aConn ok)]] else if k == "hup" then [[.h (.hConn ok)]] else [[.t (.tD2 ok)]]
+  | "connecting", "store" => if a != 0 then [] else if k == "hup" then [[.h (.hUnl)]] else [[.t (.tC2)], [.t (.tD4)]]
   | "state", "cas" =>
-      if a == 0 && b == 1 then (if k == "acc" then [[.aSt ok]] else [[.tC0 ok]])
-      else if a == 1 && b == 2 then (if k == "hup" then [[.hSt ok]] else [[.tD3 ok]])
+      if a == 0 && b == 1 then (if k == "acc" then [[.a (.aSt ok)]] else [[.t (.tC0 ok)]])
+      else if a == 1 && b == 2 then (if k == "hup" then [[.h (.hSt ok)]] else [[.t (.tD3 ok)]])
       else []
   | "state", "load" =>
-      if k == "poller" then [[.pGet v]] else if k == "hup" then [[.hGet v], [.hGet2 v]]
-      else if k == "task" then [[.tD1 v]] else [[.sGet v]]
-  | "state", "store" => if a == 2 then [[.hSetSt]] else []
-  | "flushing", "cas" => if a == 0 && b == 2 then [[.cbF1 ok]] else []
-  | "flushing", "load" => [[.cbF1b v]]
+      if k == "poller" then [[.p (.pGet v)]] else if k == "hup" then [[.h (.hGet v)], [.h (.hGet2 v)]]
+      else if k == "task" then [[.t (.tD1 v)]] else [[.u (.sGet v)]]
+  | "state", "store" => if a == 2 then [[.h (.hSetSt)]] else []
+  | "flushing", "cas" => if a == 0 && b == 2 then [[.b (.cbF1 ok)]] else []
+  | "flushing", "load" => [[.b (.cbF1b v)]]
   | "op.state", "cas" =>
-      if a == 0 && b == 1 then (if k == "acc" then [[.aReg ok]] else [[.cReg ok]])
-      else if a == 1 && b == 2 then (if k == "poller" then [[.pDo ok]] else [[.relDo ok]])
-      else if a == 1 && b == 0 then [[.cbF2 ok]]
+      if a == 0 && b == 1 then (if k == "acc" then [[.a (.aReg ok)]] else [[.a (.cReg ok)]])
+      else if a == 1 && b == 2 then (if k == "poller" then [[.p (.pDo ok)]] else [[.u (.relDo ok)]])
+      else if a == 1 && b == 0 then [[.b (.cbF2 ok)]]
       else []
-  | "op.state", "store" => if a != 1 then [] else if k == "poller" then [[.pFinish, .pDone], [.pHDone]] else [[.relDone]]
-  | "op.state", "load" => [[.cbF2b v]]
-  | "op.detached", "add" => if k == "poller" then [[.pHup, .pDet v], [.cbDet v]] else [[.cbDet v]]
-  | "fd.closed", "add" => [[.cbF3 v]]
-  | "detaching", "load" => [[.cbF3b v]]
-  | "detaching", "store" => if a == 1 then [[.dStore]] else []
+  | "op.state", "store" => if a != 1 then [] else if k == "poller" then [[.p (.pFinish), .p (.pDone)], [.p (.pHDone)]] else [[.u (.relDone)]]
+  | "op.state", "load" => [[.b (.cbF2b v)]]
+  | "op.detached", "add" => if k == "poller" then [[.p (.pHup), .p (.pDet v)], [.b (.cbDet v)]] else [[.b (.cbDet v)]]
+  | "fd.closed", "add" => [[.b (.cbF3 v)]]
+  | "detaching", "load" => [[.b (.cbF3b v)]]
+  | "detaching", "store" => if a == 1 then [[.c (.dStore)]] else []
   | "inLen", "add" =>
-      if a < 0 then [[.uConsume (-a).toNat v]]
-      else if k == "poller" then [[.pRead a.toNat, .pAck v]] else []
+      if a < 0 then [[.u (.uConsume (-a).toNat v)]]
+      else if k == "poller" then [[.p (.pRead a.toNat), .p (.pAck v)]] else []
   | "inLen", "load" =>
-      let cb : List (List Act) := [[.cbF4 v], [.uLen v]]
-      if k == "hup" then [[.hLen v]] ++ cb
-      else if k == "init" || k == "setreq" then [[.sLen v]] ++ cb
-      else if k == "task" then [[.t3 v], [.t4b0 v], [.t4b2 v], [.t8a v]] ++ cb
+      let cb : List (List Act) := [[.b (.cbF4 v)], [.b (.cbF4n v)], [.u (.uLen v)]]
+      if k == "hup" then [[.h (.hLen v)]] ++ cb
+      else if k == "init" || k == "setreq" then [[.u (.sLen v)]] ++ cb
+      else if k == "task" then [[.t (.t3 v)], [.t (.t4b0 v)], [.t (.t4b2 v)], [.t (.t8a v)]] ++ cb
       else cb
-  | "inLen", "store" => if a == 0 then [[.cbF4b]] else []
+  | "inLen", "store" => if a == 0 then [[.b (.cbF4b)]] else []
   | _, _ => []
 
 /-- candidates for a trigger line `P actor site dflt s:rd:1` -/
@@ -98,8 +98,8 @@ def candsP (k comm : String) : List (List Act) :=
   | [_, ch, room] =>
       let rm := room == "1"
       if ch == "rd" then
-        (if k == "hup" then [[.hRd rm]] else if k == "poller" then [[.pTrig rm]] else [[.cU2 rm]])
-      else if ch == "wr" then (if k == "hup" then [[.hWr rm]] else [[.cU3 rm]])
+        (if k == "hup" then [[.h (.hRd rm)]] else if k == "poller" then [[.p (.pTrig rm)]] else [[.c (.cU2 rm)]])
+      else if ch == "wr" then (if k == "hup" then [[.h (.hWr rm)]] else [[.c (.cU3 rm)]])
       else []
   | _ => []
 
@@ -107,24 +107,24 @@ def candsP (k comm : String) : List (List Act) :=
 def candsC (k dir callee : String) : List (List Act) :=
   let enter := dir == "enter"
   match callee with
-  | "opts.onPrepare" => if enter then [[.aPrepE]] else [[.aPrepX]]
-  | "onConnect" => if enter then [[.tOCenter]] else [[.tOCexit]]
-  | "onRequest" => if enter then [[.tHenter]] else [[.tHexit]]
+  | "opts.onPrepare" => if enter then [[.a (.aPrepE)]] else [[.a (.aPrepX)]]
+  | "onConnect" => if enter then [[.t (.tOCenter)]] else [[.t (.tOCexit)]]
+  | "onRequest" => if enter then [[.t (.tHenter)]] else [[.t (.tHexit)]]
   | "onDisconnect" =>
-      if k == "hup" then (if enter then [[.hODe], [.hODe2]] else [[.hODx], [.hODx2]])
-      else (if enter then [[.tODenter]] else [[.tODexit]])
-  | "callback.fn" => if enter then [[.cbEnterU], [.cbEnterF]] else [[.cbExitU], [.cbFx]]
+      if k == "hup" then (if enter then [[.h (.hODe)], [.h (.hODe2)]] else [[.h (.hODx)], [.h (.hODx2)]])
+      else (if enter then [[.t (.tODenter)]] else [[.t (.tODexit)]])
+  | "callback.fn" => if enter then [[.b (.cbEnterU)], [.b (.cbEnterF)]] else [[.b (.cbExitU)], [.b (.cbFx)]]
   | _ => []
 
 /-- candidates for a ghost line (most ghost events are for the spec only: `[[]]` = no model step) -/
 def candsG (ws : List String) : List (List Act) :=
   match ws with
-  | ["H", "panic"] => [[.tHpanic]]
-  | ["OC", "panic"] => [[.tOCpanic]]
-  | ["detach-call"] => [[.dCall]]
-  | ["setreq-call"] => [[.sCall]]
-  | ["deliver", _] => [[.pFetch]]
-  | ["deliver-hup", _] => [[.pFetch], [.pPeerClose, .pFetch]]
+  | ["H", "panic"] => [[.t (.tHpanic)]]
+  | ["OC", "panic"] => [[.t (.tOCpanic)]]
+  | ["detach-call"] => [[.c (.dCall)]]
+  | ["setreq-call"] => [[.u (.sCall)]]
+  | ["deliver", _] => [[.p (.pFetch)]]
+  | ["deliver-hup", _] => [[.p (.pFetch)], [.p (.pPeerClose), .p (.pFetch)]]
   | _ => [[]]
 
 def dedup (l : List S) : List S := l.foldl (fun acc x => if acc.contains x then acc else x :: acc) []
@@ -245,7 +245,7 @@ def main (path : String) : IO Unit := do
               | ["S", _, _, word, fn, a, b, r] => candsS k word (opOf fn) (toInt a) (toInt b) (toInt r)
               | ["P", _, _, _, comm] => candsP k comm
               | ["C", _, _, dir, callee] => candsC k dir callee
-              | "X" :: _ => [[.cbF3c]]
+              | "X" :: _ => [[.b (.cbF3c)]]
               | "Y" :: _ => [[]]
               | "G" :: _ :: rest => candsG rest
               | _ => []
